@@ -426,11 +426,13 @@ pub fn run(tier: Tier) -> Run {
     let longrange: Vec<Step> = {
         let mut seqs: Vec<Vec<Inst>> = vec![];
         let collapse = |i: &Inst| model::remap_ids(i, &|x| 1 + x % 2);
+        let pattern = universe::pattern_shapes(Tier::Quick);
         for gi in &g.insts {
             if !matches!(class_of(&gi.name), Class::Module(_)) || placement_dont_care(&gi.name) {
                 continue;
             }
-            for sh in universe::shapes(gi, Tier::Quick) {
+            let extra: Vec<universe::Shape> = pattern.iter().filter(|s| s.inst.opcode == gi.opcode && s.id.contains(":param")).cloned().collect();
+            for sh in universe::shapes(gi, Tier::Quick).into_iter().chain(extra) {
                 if sh.id.contains(":id=") || sh.id.contains(":lit=") || sh.id.contains(":str=") {
                     continue;
                 }
@@ -438,7 +440,10 @@ pub fn run(tier: Tier) -> Run {
                 for (k, n) in ["Function", "Label", "Return", "FunctionEnd"].iter().enumerate() {
                     h.push(collapse(&rep_inst(n, k + 1)));
                 }
+                // and with every id the SAME number
+                let one: Vec<Inst> = h.iter().map(|i| model::remap_ids(i, &|_| 1)).collect();
                 seqs.push(h);
+                seqs.push(one);
             }
         }
         let caps: Vec<u32> = g.enums["Capability"].declared().into_iter().collect();
